@@ -25,7 +25,7 @@ PROPERTIES = {
         assumptions=["bytes on the wire for multipart are httpx's", "interleavings inside httpx are outside this family"],
     ),
     "C06": dict(
-        modules=["contracts.c06_input_types", "contracts.c18_names"],
+        modules=["contracts.c06_input_types", "contracts.c06_defaults", "contracts.c18_names"],
         explanation="input type translator and default-literal translator against the image/coercion spec functions, by structural induction",
         assumptions=["acceptance/refusal of concrete values by the emitted annotations is pydantic's (assumed contract)"],
     ),
@@ -48,7 +48,7 @@ PROPERTIES = {
         assumptions=["A_snake: assumed contract on str_to_snake_case (regex lookahead is outside the solvers' fragment), bounded stand-in only"],
     ),
     "C19": dict(
-        modules=["contracts.c19_sources", "contracts.c06_input_types"],
+        modules=["contracts.c19_sources", "contracts.c06_input_types", "contracts.c06_defaults"],
         bounded=[_bounded.lazy("contracts.e2e_sources", "bounded_sources")],
         explanation="introspection decision chain (complete, loop-free), header resolution, file discovery (walk_graphql_files) "
                     "with a trace invariant; defaults through the C06 contracts; equality of the clients generated from the three "
